@@ -6,11 +6,31 @@ sys.path.insert(0, os.path.join(ROOT, 'engine'))
 import runner
 
 TEXT = {
+ 'C01': ('one symbolic operation from every symbolic (size, contents) state of static_vector / inplace_vector / stack compared with a sequence model, plus k-step symbolic histories and the six relational operators; capacities and pre-sizes enumerated, values/positions/counts symbolic', '2 C01'),
+ 'C02': ('the UB build (clang -fsanitize=...-trap) of the other families\' kernels with valid symbolic inputs: every load/store inside its exact-size object (CBMC pointer checks), no ubsan trap, no allocator call (static IR walk + assertion), default-initialised objects are empty for arbitrary storage bytes', '2 C02'),
+ 'C03': ('instrumented element type with a shadow life-state ledger shared between kernel and driver; construct-over-live, use-of-dead, double destroy and leaks are assertions decided for one symbolic operation from every state and for short symbolic histories', '2 C03'),
+ 'C04': ('one symbolic operation from every symbolic inplace_string state (all characters, all 64-bit pos/count) compared with a model / std::basic_string_view, and size()<=capacity() && data()[size()]==0 asserted after every operation; capacities on both sides of the tiny/normal layout boundary', '2 C04'),
+ 'C05': ('kernels built with TETL_ENABLE_CONTRACT_CHECKS(+_SAFE) and a custom assert handler: for each documented precondition, violated => the handler is reached before any out-of-object access and with the object unmodified; satisfied => the handler is unreachable; symbolic states and arguments', '2 C05'),
+ 'C06': ('each algorithm of algorithm.hpp / numeric.hpp compared with libstdc++ (translated through the same pipeline) or with a specification predicate (sorted + permutation + stability) on symbolic arrays of enumerated length', '2 C06'),
+ 'C07': ('one symbolic operation from every (state, value) of optional / variant / expected compared with std::optional / std::variant through the pipeline (tagged-union model for expected), relational operators and visit included, plus k-step histories', '2 C07'),
  'C08': ('every string_view search/compare/substr/copy overload decided against libstdc++ std::basic_string_view (itself translated through the same pipeline) for all characters and all 64-bit pos/count values at enumerated lengths; reads outside the exact-size blocks are CBMC dereference failures', '2 C08'),
+ 'C09': ('one symbolic operation from every sorted-unique symbolic set state (static_set, flat_set, flat_multiset) compared with a sorted-array model; the ordering invariant is re-established after every operation, so the step argument covers histories of any length', '2 C09'),
+ 'C10': ('to_chars/from_chars/strto*/ato*/sto*/to_integer compared with std::to_chars / std::from_chars through the pipeline and a reference parser: all values x all bases for 8/16-bit types, constant bases for wider types, all buffer lengths, symbolic input strings', '2 C10'),
+ 'C11': ('Gregorian successor step lemmas for civil_from_days / days_from_civil over the whole sys_days range plus anchor dates (induction inside the solver), ok()/weekday/last-day for all field values, arithmetic against std::chrono', '2 C11'),
+ 'C12': ('duration_cast/floor/ceil/round/abs and duration/time_point arithmetic against exact cross-multiplied rational inequalities in 128 bit and std::chrono through the pipeline, tick counts symbolic over the Rep range within the representable domain', '2 C12'),
+ 'C13': ('constant-evaluation path (forced with a macro in a second kernel TU) against the run-time path of every dual-path function for all arguments, and UB-freedom of the constant-evaluation path (UB there is a compile error in a constant expression)', '2 C13'),
+ 'C14': ('each bit/integer utility compared with its mathematical definition written independently (bit loops, __int128 arithmetic, libstdc++ <bit>/<numeric>/<utility>) for all values of the 8/16/32/64-bit instantiations', '2 C14'),
+ 'C16': ('the exact-result cmath functions (rounding family, sign/classification, fmin/fmax/fdim, nextafter ...) of the portable/gcem path compared bit-exactly with IEEE-754 predicates and CBMC\'s libm models for all float (double in thorough) bit patterns; approximating functions are outside the claim', '2 C16'),
+ 'C17': ('one symbolic operation from every symbolic bitset state (padding invariant assumed and re-established) compared with a bool-array model / std::bitset; observers independent of padding bits', '2 C17'),
+ 'C18': ('cctype/cwctype against a table dumped from the host C library at run time for every argument; cstring/cwchar functions (public entry and portable templates) against reference loops on symbolic exact-size buffers', '2 C18'),
+ 'C19': ('layout mappings against closed forms, in-bounds and injectivity for symbolic extents/indices; mdspan/mdarray/submdspan/span/array access against pointer arithmetic', '2 C19'),
+ 'C20': ('pair/tuple run-time behaviour against std::pair/std::tuple with symbolic elements; callable wrappers: exactly one call with the same argument values and the result returned unchanged; inplace_function one-step and k-step symbolic histories', '2 C20'),
 }
 NA = {
  'C15': 'type traits / concepts / numeric_limits / ratio are compile-time constants and types: there is no executable code to encode and the quantifier ranges over C++ types, which an SMT variable cannot (DESIGN.md section 3)',
 }
+# properties whose quick check has been run by the lead on the current tree and exits 0 (set grows during integration)
+READY = {'C08'}
 PENDING = 'check under construction in this session; not claimed until its harness family is committed'
 
 def main():
@@ -20,7 +40,7 @@ def main():
     checks = []; na = []
     for p in props:
         i = p['id']
-        if i in have and i in TEXT:
+        if i in have and i in TEXT and i in READY:
             checks.append({
                 'property_id': i,
                 'quick_cmd': './vf check %s --tier quick' % i,
